@@ -132,7 +132,10 @@ def run_one(prop, m, idx, outdir):
                 "# %s line %d (%s)\n" % (m["file"], m["line"], m["what"]) + diff)
             und = [l for l in k.stdout.splitlines() if "undecided" in l and "target" in l]
             return (idx, "SURVIVED", "%s:%d %s%s" % (m["file"].split("/")[-1], m["line"], m["what"], "  [target undecided]" if und else ""))
-        return (idx, "checker-exit-%d" % k.returncode, (k.stdout + k.stderr)[-300:].replace("\n", " | "))
+        os.makedirs(os.path.join(outdir, prop), exist_ok=True)
+        open(os.path.join(outdir, prop, "%03d.exit%d.txt" % (idx, k.returncode)), "w").write(
+            "# %s line %d (%s)\n" % (m["file"], m["line"], m["what"]) + diff + "\n" + k.stdout + k.stderr)
+        return (idx, "checker-exit-%d" % k.returncode, "%s:%d %s" % (m["file"].split("/")[-1], m["line"], m["what"]))
     finally:
         sh("git -C /repo worktree remove --force %s" % wt)
 
